@@ -335,6 +335,7 @@ package filesystem
 //@   ensures stale-view-rejected: old(ring.data.Current) != tx.oldSeqnum ==> err == errTxConcurrentModification && ring.data.Current == old(ring.data.Current)
 //@   ensures applied: err == nil ==> old(ring.data.Current) == tx.oldSeqnum && ring.data.Current == tx.newSeqnum && ret(KeyRing.KeyWithSeqnum)[0] != nil
 //@   ensures failure-changes-nothing: err != nil ==> ring.data.Current == old(ring.data.Current)
+//@   ensures applies-whenever-the-view-is-current-and-both-keys-exist: old(ring.data.Current) == tx.oldSeqnum && (tx.oldSeqnum == asn1.NoKey || ret(KeyRing.KeyWithSeqnum#0)[0] != nil) && ret(KeyRing.KeyWithSeqnum#1)[0] != nil ==> err == nil
 
 //@ func (tx *txSetKeyCurrent) Rollback(ring *KeyRing) (err error)
 //@   props C08
